@@ -30,8 +30,11 @@ type Cross struct {
 	SameIDs   bool  // all clients use the same message IDs (q-th request has ID q): only the token tells replies apart
 	UDPSize   int   // server UDP buffer size (pool granularity), 0 = default 512
 	Pad       int   // extra TXT padding in the request so that it fills most of the receive buffer
-	Tsig      bool  // server has a TSIG secret, every request and reply is signed; TsigStatus must be nil for every request
-	Salt      uint32
+	Async     bool  // datagram transports: the handler returns at once; the reply is written later from a goroutine,
+	//                   after AsyncK further requests have been dispatched (or 30 ms)
+	AsyncK int
+	Tsig   bool // server has a TSIG secret, every request and reply is signed; TsigStatus must be nil for every request
+	Salt   uint32
 }
 
 func genCross(transports []string) func(t *rapid.T) Cross {
@@ -44,6 +47,8 @@ func genCross(transports []string) func(t *rapid.T) Cross {
 			UDPSize:   rapid.SampledFrom([]int{0, 0, 512, 1232, 4096}).Draw(t, "udpSize"),
 			Pad:       rapid.SampledFrom([]int{0, 0, 50, 200, 300}).Draw(t, "pad"),
 			Tsig:      rapid.IntRange(0, 9).Draw(t, "tsig") < 4,
+			Async:     rapid.IntRange(0, 9).Draw(t, "async") < 4,
+			AsyncK:    rapid.IntRange(0, 4).Draw(t, "asyncK"),
 			Salt:      rapid.Uint32().Draw(t, "salt"),
 		}
 		if !pbt.Thorough() && c.Clients*c.Reqs > 192 {
@@ -180,17 +185,21 @@ const (
 )
 
 type crossState struct {
-	nonce  string
-	c      Cross
-	mu     sync.Mutex
-	seen   map[string]int
-	bad    []string
-	multi  bool // realUDPwild: several local addresses are usable
-	tsigOK atomic.Int32
-	alien  atomic.Int32
-	calls  atomic.Int32
-	active atomic.Int32
-	maxAct atomic.Int32
+	nonce        string
+	c            Cross
+	mu           sync.Mutex
+	seen         map[string]int
+	bad          []string
+	multi        bool           // realUDPwild: several local addresses are usable
+	addrs        map[int]string // client index -> its local address, as the server must see it
+	srvLocal     string         // the address the server listens on
+	asyncPending atomic.Int32   // late repliers still at work (an atomic, not a WaitGroup: Add would race with Wait across a real socket)
+	lateReplies  atomic.Int32
+	tsigOK       atomic.Int32
+	alien        atomic.Int32
+	calls        atomic.Int32
+	active       atomic.Int32
+	maxAct       atomic.Int32
 }
 
 func (s *crossState) fail(format string, a ...any) {
@@ -199,6 +208,20 @@ func (s *crossState) fail(format string, a ...any) {
 		s.bad = append(s.bad, fmt.Sprintf(format, a...))
 	}
 	s.mu.Unlock()
+}
+
+func (s *crossState) datagram() bool {
+	return s.c.Transport == "memPacket" || s.c.Transport == "realUDP" || s.c.Transport == "realUDPwild"
+}
+
+// sameEndpoint compares two address strings; with a wildcard-bound socket only the port is known.
+func sameEndpoint(got, want string, portOnly bool) bool {
+	if !portOnly {
+		return got == want
+	}
+	_, gp, e1 := net.SplitHostPort(got)
+	_, wp, e2 := net.SplitHostPort(want)
+	return e1 == nil && e2 == nil && gp == wp
 }
 
 func (s *crossState) handler(w dns.ResponseWriter, req *dns.Msg) {
@@ -210,14 +233,15 @@ func (s *crossState) handler(w dns.ResponseWriter, req *dns.Msg) {
 			break
 		}
 	}
-	defer s.active.Add(-1)
 	qn, txt, opt, ok := tokens(req)
 	if s.real() && !strings.Contains(qn+txt+opt, s.nonce) {
 		s.alien.Add(1) // another process's datagram on a reassigned port
+		s.active.Add(-1)
 		return
 	}
 	if !ok || qn != txt || qn != opt {
 		s.fail("handler saw a request nobody sent: qname token %q, TXT token %q, OPT token %q", qn, txt, opt)
+		s.active.Add(-1)
 		return
 	}
 	if s.c.Tsig {
@@ -225,51 +249,97 @@ func (s *crossState) handler(w dns.ResponseWriter, req *dns.Msg) {
 		// this request's octets
 		if req.IsTsig() == nil {
 			s.fail("signed request of token %q reached its handler without a TSIG record", qn)
+			s.active.Add(-1)
 			return
 		}
 		if err := w.TsigStatus(); err != nil {
 			s.fail("correctly signed request of token %q: TsigStatus() = %v", qn, err)
+			s.active.Add(-1)
 			return
 		}
 		s.tsigOK.Add(1)
+	}
+	// the response writer belongs to this request: it names this client and this server
+	var cl, q int
+	fmt.Sscanf(qn, "c%dq%d", &cl, &q)
+	s.mu.Lock()
+	wantRemote := s.addrs[cl]
+	s.mu.Unlock()
+	remote, local := w.RemoteAddr().String(), w.LocalAddr().String()
+	wild := s.c.Transport == "realUDPwild"
+	if !sameEndpoint(remote, wantRemote, wild) {
+		s.fail("handler of token %q (client %d at %s): RemoteAddr() = %s", qn, cl, wantRemote, remote)
+	}
+	if local != s.srvLocal {
+		s.fail("handler of token %q: LocalAddr() = %s, the server listens on %s", qn, local, s.srvLocal)
 	}
 	before := req.String()
 	s.mu.Lock()
 	s.seen[qn]++
 	s.mu.Unlock()
-	if us := s.c.SleepUs[int(n)%len(s.c.SleepUs)]; us > 0 {
-		time.Sleep(time.Duration(us) * time.Microsecond)
-	} else {
-		runtime.Gosched()
+	finish := func() {
+		defer s.active.Add(-1)
+		if us := s.c.SleepUs[int(n)%len(s.c.SleepUs)]; us > 0 {
+			time.Sleep(time.Duration(us) * time.Microsecond)
+		} else {
+			runtime.Gosched()
+		}
+		// re-read the request after the sleep: it must not have changed under the handler
+		qn2, txt2, opt2, ok2 := tokens(req)
+		if !ok2 || qn2 != qn || txt2 != txt || opt2 != opt || req.String() != before {
+			s.fail("request of token %q changed while its handler slept: now qname %q TXT %q OPT %q", qn, qn2, txt2, opt2)
+			return
+		}
+		// ... and the response writer is still this request's
+		if r2 := w.RemoteAddr().String(); r2 != remote {
+			s.fail("response writer of token %q: RemoteAddr() was %s, is %s when the reply is written", qn, remote, r2)
+			return
+		}
+		if s.c.Tsig && w.TsigStatus() != nil {
+			s.fail("response writer of token %q: TsigStatus() turned into %v before the reply was written", qn, w.TsigStatus())
+			return
+		}
+		m := new(dns.Msg)
+		m.SetReply(req)
+		m.Answer = []dns.RR{&dns.TXT{Hdr: dns.RR_Header{Name: req.Question[0].Name, Rrtype: dns.TypeTXT, Class: dns.ClassINET, Ttl: 1}, Txt: []string{"re:" + qn}}}
+		o := &dns.OPT{Hdr: dns.RR_Header{Name: ".", Rrtype: dns.TypeOPT}}
+		o.SetUDPSize(1232)
+		o.Option = append(o.Option, &dns.EDNS0_LOCAL{Code: tokOpt, Data: []byte("re:" + qn)})
+		m.Extra = []dns.RR{o}
+		if s.c.Tsig {
+			m.SetTsig(tsigKeyName, dns.HmacSHA256, 300, time.Now().Unix())
+		}
+		if err := w.WriteMsg(m); err != nil {
+			s.fail("handler of token %q could not write its reply: %v", qn, err)
+		}
 	}
-	// re-read the request after the sleep: it must not have changed under the handler
-	qn2, txt2, opt2, ok2 := tokens(req)
-	if !ok2 || qn2 != qn || txt2 != txt || opt2 != opt || req.String() != before {
-		s.fail("request of token %q changed while its handler slept: now qname %q TXT %q OPT %q", qn, qn2, txt2, opt2)
+	if s.c.Async && s.datagram() {
+		// reply after ServeDNS has returned (doc.go: a handler may answer asynchronously), once
+		// AsyncK further requests have been dispatched in the meantime
+		s.asyncPending.Add(1)
+		s.lateReplies.Add(1)
+		go func() {
+			defer s.asyncPending.Add(-1)
+			for t0 := time.Now(); s.calls.Load() < n+int32(s.c.AsyncK) && time.Since(t0) < 30*time.Millisecond; {
+				time.Sleep(100 * time.Microsecond)
+			}
+			finish()
+		}()
 		return
 	}
-	m := new(dns.Msg)
-	m.SetReply(req)
-	m.Answer = []dns.RR{&dns.TXT{Hdr: dns.RR_Header{Name: req.Question[0].Name, Rrtype: dns.TypeTXT, Class: dns.ClassINET, Ttl: 1}, Txt: []string{"re:" + qn}}}
-	o := &dns.OPT{Hdr: dns.RR_Header{Name: ".", Rrtype: dns.TypeOPT}}
-	o.SetUDPSize(1232)
-	o.Option = append(o.Option, &dns.EDNS0_LOCAL{Code: tokOpt, Data: []byte("re:" + qn)})
-	m.Extra = []dns.RR{o}
-	if s.c.Tsig {
-		m.SetTsig(tsigKeyName, dns.HmacSHA256, 300, time.Now().Unix())
-	}
-	if err := w.WriteMsg(m); err != nil {
-		s.fail("handler of token %q could not write its reply: %v", qn, err)
-	}
+	finish()
 }
 
 func checkCross(c Cross) error {
 	key, _ := json.Marshal(c)
-	s := &crossState{c: c, seen: map[string]int{}, nonce: fmt.Sprintf("p%dr%d", os.Getpid(), crossSeq.Add(1))}
+	s := &crossState{c: c, seen: map[string]int{}, addrs: map[int]string{}, nonce: fmt.Sprintf("p%dr%d", os.Getpid(), crossSeq.Add(1))}
 	lost, err := s.run()
 	cl := []string{"transport=" + c.Transport, fmt.Sprintf("clients>=%d", bucket(c.Clients)), fmt.Sprintf("sameIDs=%v", c.SameIDs), fmt.Sprintf("tsig=%v", c.Tsig)}
 	if c.Tsig && s.tsigOK.Load() > 0 {
 		cl = append(cl, "tsig-verified-requests")
+	}
+	if s.lateReplies.Load() > 0 {
+		cl = append(cl, "replies-after-ServeDNS-returned")
 	}
 	inflight := s.maxAct.Load() >= 2
 	if inflight {
@@ -357,6 +427,11 @@ func (s *crossState) run() (lost int, err error) {
 	default:
 		return 0, fmt.Errorf("unknown transport %q", c.Transport)
 	}
+	if srv.Listener != nil {
+		s.srvLocal = srv.Listener.Addr().String()
+	} else {
+		s.srvLocal = srv.PacketConn.LocalAddr().String()
+	}
 	started := make(chan struct{})
 	srv.NotifyStartedFunc = func() { close(started) }
 	serveErr := make(chan error, 1)
@@ -401,6 +476,9 @@ func (s *crossState) run() (lost int, err error) {
 				return
 			}
 			defer conn.Close()
+			s.mu.Lock()
+			s.addrs[cl] = conn.LocalAddr().String()
+			s.mu.Unlock()
 			co := &dns.Conn{Conn: conn, UDPSize: 1232}
 			if c.Tsig {
 				co.TsigSecret = map[string]string{tsigKeyName: tsigSecret} // replies are verified by ReadMsg
@@ -452,7 +530,13 @@ func (s *crossState) run() (lost int, err error) {
 	}
 	close(gate)
 	done := make(chan struct{})
-	go func() { wg.Wait(); close(done) }()
+	go func() {
+		wg.Wait()
+		for t0 := time.Now(); s.asyncPending.Load() > 0 && time.Since(t0) < 2*hangLimit; {
+			time.Sleep(200 * time.Microsecond)
+		}
+		close(done)
+	}()
 	select {
 	case <-done:
 	case <-time.After(3 * hangLimit):
